@@ -6,6 +6,8 @@ package main
 import (
 	"bytes"
 	"fmt"
+	"google.golang.org/protobuf/types/known/wrapperspb"
+	"pgregory.net/rapid"
 
 	cosmos_proto "github.com/cosmos/cosmos-proto"
 	"github.com/cosmos/cosmos-proto/rapidproto"
@@ -126,6 +128,77 @@ func anyHintPass(out *Out, cfg *Cfg) {
 				if mr.Has(f) {
 					check(string(f.Name()), hinted, mr.Get(f).Message())
 				}
+			}
+		}
+	}
+	// ---- option sets DERIVED from a common base one after the other (WithAnyTypes appends to the base's URL slice:
+	// with spare capacity two derived sets share a backing array), a generator created from the first before the
+	// second is derived, examples drawn from both afterwards: every Any must still name the type its value encodes
+	pool := []proto.Message{dynamicpb.NewMessage(txt), dynamicpb.NewMessage(num), &wrapperspb.BoolValue{}, &wrapperspb.BytesValue{}, &wrapperspb.StringValue{},
+		&wrapperspb.Int64Value{}, &wrapperspb.UInt32Value{}, &wrapperspb.DoubleValue{}, &wrapperspb.FloatValue{}, &wrapperspb.Int32Value{}}
+	for _, m := range pool[2:] {
+		_ = types.RegisterMessage(m.ProtoReflect().Type())
+	}
+	checkAll := func(m proto.Message, replay string) {
+		mr := m.ProtoReflect()
+		visit := func(v protoreflect.Message) {
+			url := v.Get(v.Descriptor().Fields().ByName("type_url")).String()
+			val := v.Get(v.Descriptor().Fields().ByName("value")).Bytes()
+			out.Count("derived_options_anys")
+			mt, err := types.FindMessageByURL(url)
+			if err != nil {
+				out.Violate("C18", "any-unresolvable", fmt.Sprintf("type URL %q does not resolve", url), replay)
+				return
+			}
+			inner := mt.New().Interface()
+			if err := proto.Unmarshal(val, inner); err != nil {
+				out.Violate("C18", "any-undecodable", fmt.Sprintf("value %x does not decode as %s: %v", val, url, err), replay)
+				return
+			}
+			re, _ := proto.MarshalOptions{Deterministic: true}.Marshal(inner)
+			if len(inner.ProtoReflect().GetUnknown()) > 0 || !bytes.Equal(re, val) {
+				out.Violate("C18", "any-value-of-other-type", fmt.Sprintf("value %x is not an encoding of %s", val, url), replay)
+			}
+		}
+		fs := holder.Fields()
+		for i := 0; i < fs.Len(); i++ {
+			f := fs.Get(i)
+			switch {
+			case f.IsList():
+				l := mr.Get(f).List()
+				for k := 0; k < l.Len(); k++ {
+					visit(l.Get(k).Message())
+				}
+			case f.IsMap():
+				mr.Get(f).Map().Range(func(_ protoreflect.MapKey, v protoreflect.Value) bool { visit(v.Message()); return true })
+			default:
+				if mr.Has(f) {
+					visit(mr.Get(f).Message())
+				}
+			}
+		}
+	}
+	for nBase := 1; nBase <= 7; nBase++ {
+		b0 := rapidproto.GeneratorOptions{Resolver: types}.WithInterfaceHint("verif.Iface", dynamicpb.NewMessage(num)).WithAnyTypes(pool[:nBase]...)
+		o1 := b0.WithAnyTypes(pool[8])
+		g1 := rapidproto.MessageGenerator[proto.Message](dynamicpb.NewMessage(holder), o1)
+		o2 := b0.WithAnyTypes(pool[9])
+		g2 := rapidproto.MessageGenerator[proto.Message](dynamicpb.NewMessage(holder), o2)
+		n := 40
+		if cfg.Tier == "thorough" {
+			n = 600
+		}
+		for seed := 0; seed < n; seed++ {
+			sd := int(cfg.Seed)*100000 + 19000 + seed
+			for gi, g := range []*rapid.Generator[proto.Message]{g1, g2} {
+				replay := fmt.Sprintf("rapid verif.anyhint.Holder, option sets derived from a base of %d Any types: base.WithAnyTypes(X) -> generator 1, then base.WithAnyTypes(Y) -> generator 2; example of generator %d seed=%d", nBase, gi+1, sd)
+				var m proto.Message
+				if p, pm := guard(func() { m = g.Example(sd) }); p {
+					out.Violate("C18", "gen-panic:derived-options", "generator failed: "+firstLine(pm), replay)
+					continue
+				}
+				out.Count("derived_options_examples")
+				checkAll(m, replay)
 			}
 		}
 	}
